@@ -354,6 +354,21 @@ def _eval(case, ctx):
         loads += 1
         if _bits(g0) != _bits(got):
             msgs.append("%s returns a different graph than Graph.from_g2o for the same file" % LOADERS[loader])
+    # history inside this worker process: scribble over every array of the loaded graph, so that anything a later load would
+    # share with this one (module-level default objects, cached parameters) is visibly polluted
+    try:
+        for v in I.graph_vertices(g):
+            np.asarray(v.pose)[...] = 12345.678
+        for e in I.graph_edges(g):
+            if isinstance(e.estimate, np.ndarray):
+                np.asarray(e.estimate)[...] = -9876.5
+            if getattr(e, "offset", None) is not None:
+                np.asarray(e.offset)[...] = 777.25
+            np.asarray(e.information)[...] = -1.0
+        for prm in (I.graph_params(g) or {}).values():
+            np.asarray(prm.value)[...] = 555.5
+    except Exception:
+        pass
     if msgs:
         msgs.append("file was:\n" + text)
     return msgs, {"classes": classes, "nobj": len(got["vertices"]) + len(got["edges"]) + len(got["params"]), "nwarn": nw, "loads": loads}
